@@ -215,6 +215,8 @@ class AttrGen:
                         row.pop("label", None)
                         row.pop("label::en", None)
                 body.append(q)
+        if self.err_mode and rng.random() < 0.05:
+            body = [] if rng.random() < 0.5 else [{"type": "text", "name": self.name(), "label": "off", "disabled": "yes"}]
         return [row, *body, {"type": f"end {kind}"}]
 
     def form(self) -> dict:
